@@ -15,6 +15,12 @@ PROPS = {
         rules=["NoPanic", "NameRef", "NameMustErr"],
         shards=12,
     ),
+    "C10": dict(
+        gen=[dict(module="Gen_RData", cfg="Gen_RData.cfg", out="rdata_cases.ndjson")],
+        topic="rdata",
+        rules=["NoPanic", "EnvelopeErr", "ParseEqRef", "MustAccept", "BuildOk", "PlainCanonical"],
+        shards=12,
+    ),
     "C17": dict(
         gen=[dict(module="Gen_NameText", cfg="Gen_NameText.cfg", cfg_thorough="Gen_NameText_thorough.cfg", out="text_cases.ndjson")],
         topic="nametext",
@@ -73,5 +79,16 @@ TEXT = {
               "observation against NameText.tla in the trace specification."),
         note=_TRUSTED,
         technique="TLA+ grammar spec (NameText.tla), TLC-enumerated strings replayed into the crate, results validated by the trace spec",
+    ),
+    "C10": dict(
+        text=("For each of the 40 typed variants plus NULL/unknown, TLC enumerates every value tuple of the bounded "
+              "domain of the type's declarative schema (RData.tla, written from the RFCs), checks that the reference "
+              "decoder inverts the reference encoder, and emits the reference-encoded message and the values. The real "
+              "crate parses the reference bytes (values must equal the RFC field values: ParseEqRef/MustAccept) and "
+              "serialises the constructed values (bytes must equal the reference encoding byte for byte, including the "
+              "IANA type code: PlainCanonical); every rule-breaking encoding (LOC version, SVCB key order, NSEC window "
+              "order, inner length overrun) must be rejected. Verdicts by TLC in the trace specification."),
+        note=_TRUSTED,
+        technique="TLA+ declarative RDATA schemas + generic Ref codec; TLC-generated cases replayed into the crate; trace validation",
     ),
 }
